@@ -191,6 +191,19 @@ func hostileCatalogue(r *rand.Rand, base []byte) []hostile {
 		loc = append(loc, fr(hdrSpec{id: 0x0200, serial: 40 + len(loc), body: append(append([]byte{}, blk...), item...)}))
 	}
 	add("location-additional-items-impossible-lengths", "close", loc...)
+	// every item id 0x00..0xFF with declared lengths 0, 1, 2, 3 and 5 (content as declared, and one byte short of it)
+	var sweep [][]byte
+	for id := 0; id < 256; id++ {
+		for _, n := range []int{0, 1, 2, 3, 5} {
+			item := append([]byte{byte(id), byte(n)}, bytes.Repeat([]byte{byte(id)}, n)...)
+			sweep = append(sweep, fr(hdrSpec{id: 0x0200, serial: (len(sweep) + 100) % 65536, body: append(append([]byte{}, blk...), item...)}))
+			if n > 0 {
+				sweep = append(sweep, fr(hdrSpec{id: 0x0704, serial: (len(sweep) + 100) % 65536, body: append([]byte{0, 1, 0, 0, byte(28 + 2 + n - 1)}, append(append([]byte{}, blk...), item[:len(item)-1]...)...)}))
+			}
+		}
+	}
+	add("location-additional-items-every-id-short-lengths", "close", sweep...)
+	add("short-responses-while-a-command-is-outstanding", "respond-short", fr(hdrSpec{id: 0x0002, serial: 1}))
 	add("never-reads-while-commands-are-queued", "noread", fr(hdrSpec{id: 0x0002, serial: 1})) // joins under its own key: the commands below are addressed to it
 	return hs
 }
@@ -278,6 +291,30 @@ func init() {
 				t.close(true)
 			case "hang":
 				hung = append(hung, t)
+			case "respond-short":
+				// it joined; a command is outstanding on it while it sends every response id with an empty, a one-byte and a two-byte body
+				key := string(asciiDigits(h.phone))
+				kid++
+				cdone := make(chan struct{})
+				go func(k int) {
+					l.sendActive(t.idx, k, key, consts.P9205QueryResourceList, make([]byte, 24), 1500*time.Millisecond)
+					close(cdone)
+				}(kid)
+				t.waitRecv(2, 2*time.Second) // the heartbeat's reply and the command
+				ser := 100
+				for _, id := range []int{0x0001, 0x0104, 0x0805, 0x1003, 0x1205, 0x1206} {
+					for _, b := range [][]byte{{}, {0x00}, {0x00, 0x01}, {0xff, 0xff, 0xff}} {
+						ser++
+						t.send(buildFrame(hdrSpec{id: id, serial: ser, phone: h.phone, body: b}))
+						time.Sleep(300 * time.Microsecond)
+					}
+				}
+				select {
+				case <-cdone:
+				case <-time.After(6 * time.Second):
+					l.rec.log(t.idx, "K", "cmd_stranded", "k", -1, "tmo", 1500)
+				}
+				t.close(false)
 			case "noread":
 				// it joined with its heartbeat; it keeps sending heartbeats without ever reading the replies, until the
 				// server's writer for this connection is stuck in Write (our own writes stall once every buffer is full)
